@@ -25,7 +25,7 @@ SCHEMA = f'''<xs:schema {XS} targetNamespace="urn:t" xmlns:t="urn:t" elementForm
       <xs:element name="vals" minOccurs="0"><xs:complexType><xs:simpleContent><xs:extension base="t:ints"><xs:attribute name="unit" type="xs:token"/></xs:extension></xs:simpleContent></xs:complexType></xs:element>
       <xs:element name="mix" minOccurs="0"><xs:complexType mixed="true"><xs:sequence><xs:element name="b" type="xs:string" minOccurs="0" maxOccurs="unbounded"/></xs:sequence></xs:complexType></xs:element>
       <xs:element name="end" type="xs:token"/>
-     </xs:sequence><xs:attribute name="id" type="xs:ID" use="required"/><xs:attribute name="w" type="xs:double"/></xs:complexType></xs:element>
+     </xs:sequence><xs:attribute name="id" type="xs:ID" use="required"/><xs:attribute name="w" type="xs:double"/><xs:attribute name="ver" type="xs:int" fixed="2"/></xs:complexType></xs:element>
   </xs:sequence></xs:complexType></xs:element></xs:schema>'''
 NS = {'t': 'urn:t'}
 _S = {}
@@ -48,7 +48,7 @@ def gen(rng):
         if rng.random() < .5: parts.append(rng.choice(['<t:vals>1 2</t:vals>', '<t:vals unit="m">3 4 5</t:vals>', '<t:vals>7</t:vals>']))      # list-valued simple content, with and without its attribute
         if rng.random() < .4: parts.append(f'<t:mix>{rng.choice(["", "x"])}<t:b>y</t:b>{rng.choice(["", "z"])}<t:b>w</t:b></t:mix>')
         parts.append('<t:end>e</t:end>')        # a required particle after the optional ones: data truncated before an optional particle is incomplete
-        w = rng.choice(['', ' w="1.5"', ' w="INF"', ' w="1e3"'])
+        w = rng.choice(['', ' w="1.5"', ' w="INF"', ' w="1e3"']) + rng.choice([' ver="2"', ' ver="02"'])       # an attribute with a fixed value, always present (an absent one is filled in by decoding), in two lexical forms
         items.append(f'<t:item id="i{i}"{w}>' + ''.join(parts) + '</t:item>')
     return '<t:r xmlns:t="urn:t">' + ''.join(items) + '</t:r>'
 
@@ -129,6 +129,30 @@ def eval_doc(args):
             if reasons and all(('xs:ID' in r_ or 'IDREF' in r_ or 'duplicated value' in r_ or 'not found for' in r_) for r_ in reasons):
                 bad.append(('soundness-identity', f'strict encode returned XML violating only identity constraints: {reasons[:1]}')); continue
             bad.append(('soundness', f'strict encode returned invalid XML for {str(m)[:160]}: {[r_[:60] for r_ in reasons][:1]}'))
+    # the same for JsonML data: character data put between the children of an element-only content, a changed fixed attribute
+    try: jbase = s.decode(doc, converter=xmlschema.JsonMLConverter)
+    except Exception: jbase = None
+    for _ in range(3 if jbase is not None else 0):
+        n += 1
+        m = copy.deepcopy(jbase)
+        lists = []
+        def walk(x):
+            if isinstance(x, list) and x and isinstance(x[0], str):
+                lists.append(x)
+                for y in x[1:]: walk(y)
+        walk(m)
+        x = rng.choice(lists)
+        if rng.random() < .7: x.insert(rng.randrange(1, len(x) + 1), rng.choice(['txt', ' t ', '0']))
+        elif len(x) > 1 and isinstance(x[1], dict) and 'ver' in x[1]: x[1]['ver'] = rng.choice([3, '2x', 2.5])
+        try: e = s.encode(m, converter=xmlschema.JsonMLConverter)
+        except xmlschema.XMLSchemaException: continue
+        except Exception as exn: bad.append(('soundness-jsonml', f'strict encode raised {type(exn).__name__}: {str(exn)[:80]}')); continue
+        try: ok = s.is_valid(e)
+        except Exception: ok = False
+        if not ok:
+            reasons = [x_.reason or '' for x_ in s.iter_errors(e)]
+            if not (reasons and all(('xs:ID' in r_ or 'IDREF' in r_ or 'duplicated value' in r_ or 'not found for' in r_) for r_ in reasons)):
+                bad.append(('soundness-jsonml', f'strict encode returned invalid XML for {str(m)[:160]}: {[r_[:60] for r_ in reasons][:1]}'))
     return dict(doc=doc, ver=ver, bad=bad[:4], cases=n)
 
 
